@@ -198,7 +198,7 @@ static int64_t child_write(Kernel *k, Proc *p, int fd, int64_t want, bool *fatal
   FdEnt *e = k->fdent(p, fd);
   int stream = fd == 2 ? 2 : 1;
   // stderr merged into stdout (same open file description): one position-coded stream
-  if (fd == 2 && e && k->fdent(p, 1) && k->fdent(p, 1)->ofd == e->ofd) stream = 1;
+  if (fd == 2 && p->err_merged) stream = 1;
   if (!e || (e->ofd->acc & O_ACCMODE) == O_RDONLY) return want;  // EBADF: pretend done
   OFD *o = e->ofd;
   if (o->kind == OFD::PIPE_W) {
@@ -349,6 +349,7 @@ void Kernel::deliver(Proc *p, int sig, int from_op) {
 }
 
 void Kernel::start_script(Proc *p, int spec) {
+  { FdEnt *a = fdent(p, 1), *b = fdent(p, 2); p->err_merged = a && b && a->ofd == b->ofd; }
   static const ChildSpec empty_spec;
   p->spec = spec >= 0 && (size_t) spec < specs.size() ? &specs[(size_t) spec] : &empty_spec;
   p->pc = 0;
